@@ -167,7 +167,7 @@ def gen_cases(tier: str, seed: int) -> List[Dict]:
                 dv = []
                 for _j in range(nd):
                     i = rng.randrange(len(names))
-                    dv.append(rng.choice([names[i], i, {"indet": names[i]}]))
+                    dv.append(rng.choice([names[i], i, {"indet": names[i]}, i - len(names)]))  # (negative positions count from the end)
                 c["diffvars"] = dv
             n += 1
             c["id"] = "%s-%03d-%s" % (PROP, n, kind)
